@@ -184,6 +184,8 @@ func runC04(c *Ctx) {
 	}
 	ruleEqualityHelper(c, "EQUALITY-HELPER", checkPkgs(p))
 	c03DefaultFromDefault(c, "DEFAULT-RESOLVED", pkH)
+	c03CompareFirst(c, "COMPARE-FIRST", pkH)
+	c03ReservedMeansReserved(c, "RESERVED-MEANS-RESERVED", pkH)
 	c03NoCountShortcut(c, l, "NO-COUNT-SHORTCUT")
 	c04Extra(c)
 	c04NormaliseTotal(c)
